@@ -149,6 +149,47 @@ class ModuleNS(dict):
     pass
 
 
+@dataclass(eq=False)
+class Func:
+    short: str
+    node: ast.AST
+    globals: Any
+
+
+class _Return(Exception):
+    def __init__(self, value: Any) -> None:
+        self.value = value
+
+
+DECL_ATTRS = {"equals", "unit", "scale", "derive", "define", "alias"}
+DECL_NAMES = {"Prefix", "Logarithm"}
+
+
+def decl_call_sites(tree: ast.AST) -> List[ast.Call]:
+    """Syntactic declaration calls outside class bodies."""
+    out: List[ast.Call] = []
+
+    def visit(n: ast.AST) -> None:
+        for c in ast.iter_child_nodes(n):
+            if isinstance(c, ast.ClassDef):
+                continue
+            if isinstance(c, ast.Call):
+                f = c.func
+                if (isinstance(f, ast.Attribute) and f.attr in DECL_ATTRS) or (isinstance(f, ast.Name) and f.id in DECL_NAMES):
+                    out.append(c)
+            visit(c)
+    visit(tree)
+    return out
+
+
+def _load(t: ast.AST) -> ast.AST:
+    import copy
+    n = copy.copy(t)
+    if hasattr(n, "ctx"):
+        n.ctx = ast.Load()  # type: ignore[attr-defined]
+    return n
+
+
 class Evaluator:
     def __init__(self, src: Optional[str] = None, entry: str = "systems") -> None:
         self.src = src or SRC
@@ -182,6 +223,9 @@ class Evaluator:
         self._cur_where = ""
         self.sizes = SizeSystem()
         self.pending_class_defaults: List[Tuple[str, ast.AST]] = []
+        self.visited_calls: Set[int] = set()
+        self.site_index: Dict[str, List[ast.Call]] = {}
+        self.depth = 0
 
     # ------------------------------------------------------------ driver
     def run(self) -> "Evaluator":
@@ -211,6 +255,7 @@ class Evaluator:
             tree = ast.parse(source, filename=path)
         except SyntaxError as e:
             raise AnalysisError(f"cannot parse {rel(path)}: {e}")
+        self.site_index[short] = decl_call_sites(tree)
         self.loading.append(short)
         for st in tree.body:
             self._cur_module = short
@@ -250,28 +295,53 @@ class Evaluator:
                                 self.eval(short, ns, d, source)
             return
         if isinstance(st, (ast.FunctionDef, ast.AsyncFunctionDef)):
-            ns[st.name] = Opaque(f"function {st.name}")
+            ns[st.name] = Func(short, st, ns)
             return
         if isinstance(st, ast.Assign):
             v = self.eval(short, ns, st.value, source)
             for t in st.targets:
-                if isinstance(t, ast.Name):
-                    ns[t.id] = v
-                    if isinstance(v, UnitV) and v.var is None:
-                        v.var = t.id
-                        v.module = v.module or short
+                self._assign(short, ns, t, v, source)
             return
         if isinstance(st, ast.AnnAssign):
-            if st.value is not None and isinstance(st.target, ast.Name):
-                ns[st.target.id] = self.eval(short, ns, st.value, source)
+            if st.value is not None:
+                self._assign(short, ns, st.target, self.eval(short, ns, st.value, source), source)
+            return
+        if isinstance(st, ast.AugAssign):
+            cur = self.eval(short, ns, ast.copy_location(_load(st.target), st.target), source)
+            v = self.eval(short, ns, st.value, source)
+            if isinstance(cur, list) and isinstance(v, (list, tuple)) and isinstance(st.op, ast.Add):
+                cur.extend(v)
+                return
+            self._assign(short, ns, st.target, self._binop(st.op, cur, v), source)
             return
         if isinstance(st, ast.Expr):
             if isinstance(st.value, ast.Constant):
                 return
             self.eval(short, ns, st.value, source)
             return
+        if isinstance(st, ast.Return):
+            raise _Return(self.eval(short, ns, st.value, source) if st.value is not None else None)
         if isinstance(st, ast.If):
-            # TYPE_CHECKING / version guards: not declarations
+            t = self._truth(self.eval(short, ns, st.test, source))
+            if t is None:
+                # undecidable guard (TYPE_CHECKING, version checks): not declarations
+                self._opaque_stores(ns, st, "undecided if")
+                return
+            for sub in (st.body if t else st.orelse):
+                self.exec_stmt(short, ns, sub, source)
+            return
+        if isinstance(st, ast.For):
+            it = self.eval(short, ns, st.iter, source)
+            seq = self._iterate(it)
+            if seq is None:
+                self._opaque_stores(ns, st, "loop over a non-literal iterable")
+                return
+            for i, x in enumerate(seq):
+                if i > 20000:
+                    raise AnalysisError("declaration loop exceeds 20000 iterations")
+                self._assign(short, ns, st.target, x, source)
+                for sub in st.body:
+                    self.exec_stmt(short, ns, sub, source)
             return
         if isinstance(st, ast.Try):
             for sub in st.body:
@@ -280,12 +350,67 @@ class Evaluator:
                 except DeclError:
                     pass
             return
-        if isinstance(st, (ast.Pass, ast.Global)):
+        if isinstance(st, (ast.Pass, ast.Global, ast.Nonlocal, ast.Assert)):
             return
-        ns_opaque = Opaque(f"statement {type(st).__name__}")
+        self._opaque_stores(ns, st, f"statement {type(st).__name__}")
+
+    def _opaque_stores(self, ns: Any, st: ast.AST, why: str) -> None:
+        o = Opaque(why)
         for n in ast.walk(st):
             if isinstance(n, ast.Name) and isinstance(n.ctx, ast.Store):
-                ns[n.id] = ns_opaque
+                ns[n.id] = o
+
+    def _assign(self, short: str, ns: Any, t: ast.AST, v: Any, source: str) -> None:
+        if isinstance(t, ast.Name):
+            ns[t.id] = v
+            if isinstance(v, UnitV) and v.var is None and self.depth == 0:
+                v.var = t.id
+                v.module = v.module or short
+            return
+        if isinstance(t, (ast.Tuple, ast.List)):
+            if isinstance(v, (list, tuple)) and len(v) == len(t.elts) and not any(isinstance(x, ast.Starred) for x in t.elts):
+                for tt, vv in zip(t.elts, v):
+                    self._assign(short, ns, tt, vv, source)
+            else:
+                for tt in t.elts:
+                    self._assign(short, ns, tt, Opaque("unpacking a non-literal sequence"), source)
+            return
+        if isinstance(t, ast.Subscript):
+            base = self.eval(short, ns, t.value, source)
+            idx = self.eval(short, ns, t.slice, source)
+            if isinstance(base, dict):
+                base[self._k(idx)] = v
+            elif isinstance(base, list) and isinstance(idx, Num) and idx.rational:
+                try:
+                    base[int(idx.coef)] = v
+                except IndexError:
+                    pass
+            return
+        # attribute stores on DSL objects are not part of the declaration DSL
+
+    @staticmethod
+    def _k(v: Any) -> Any:
+        return v
+
+    def _truth(self, v: Any) -> Optional[bool]:
+        if isinstance(v, bool):
+            return v
+        if v is None:
+            return False
+        if isinstance(v, Num):
+            return not v.is_zero()
+        if isinstance(v, (str, list, tuple, dict)):
+            return bool(v)
+        if isinstance(v, (UnitV, Dim, Pfx, Qty, LogV, LogUnitV, LevelV, Func)):
+            return True
+        return None
+
+    def _iterate(self, it: Any) -> Optional[List[Any]]:
+        if isinstance(it, (list, tuple)):
+            return list(it)
+        if isinstance(it, dict):
+            return list(it.keys())
+        return None
 
     def _import_from(self, short: str, ns: ModuleNS, st: ast.ImportFrom) -> None:
         mod: Optional[str] = None
@@ -349,7 +474,9 @@ class Evaluator:
         if isinstance(e, ast.Name):
             if e.id in ns:
                 return ns[e.id]
-            if e.id in ("range", "int", "float", "str", "tuple", "list", "dict", "set", "len"):
+            if e.id in ("range", "zip", "enumerate", "list", "tuple", "len", "dict", "reversed", "sorted", "abs", "sum", "min", "max"):
+                return ("builtin", e.id)
+            if e.id in ("int", "float", "str", "set", "print"):
                 return Opaque(f"builtin {e.id}")
             return Opaque(f"name {e.id}")
         if isinstance(e, ast.Attribute):
@@ -374,14 +501,140 @@ class Evaluator:
             idx = ev(e.slice)
             if isinstance(base, LogV) and isinstance(idx, Qty):
                 return self._logunit(base, idx)
+            if isinstance(base, (list, tuple)) and isinstance(idx, Num) and idx.rational and idx.coef.denominator == 1:
+                try:
+                    return base[int(idx.coef)]
+                except IndexError:
+                    raise DeclError("IndexError in a declaration")
+            if isinstance(base, dict):
+                if idx in base:
+                    return base[idx]
+                raise DeclError("KeyError in a declaration")
             return Opaque("subscript")
-        if isinstance(e, (ast.Set, ast.List, ast.Tuple)):
+        if isinstance(e, (ast.Set, ast.List)):
             return [ev(x) for x in e.elts]
-        if isinstance(e, (ast.Dict, ast.DictComp, ast.ListComp, ast.SetComp, ast.GeneratorExp, ast.Lambda)):
-            return Opaque(type(e).__name__)
+        if isinstance(e, ast.Tuple):
+            return tuple(ev(x) for x in e.elts)
+        if isinstance(e, ast.Dict):
+            if any(k is None for k in e.keys):
+                return Opaque("dict unpacking")
+            return {ev(k): ev(v) for k, v in zip(e.keys, e.values)}
+        if isinstance(e, (ast.ListComp, ast.SetComp, ast.GeneratorExp, ast.DictComp)):
+            return self._comprehension(short, ns, e, source)
+        if isinstance(e, ast.IfExp):
+            t = self._truth(ev(e.test))
+            if t is None:
+                return Opaque("undecided conditional expression")
+            return ev(e.body if t else e.orelse)
+        if isinstance(e, ast.BoolOp):
+            last: Any = None
+            for x in e.values:
+                last = ev(x)
+                t = self._truth(last)
+                if t is None:
+                    return Opaque("undecided boolean")
+                if isinstance(e.op, ast.And) and not t:
+                    return last
+                if isinstance(e.op, ast.Or) and t:
+                    return last
+            return last
+        if isinstance(e, ast.Compare):
+            return self._compare(e, [ev(e.left)] + [ev(c) for c in e.comparators])
+        if isinstance(e, ast.JoinedStr):
+            parts = []
+            for v in e.values:
+                if isinstance(v, ast.Constant):
+                    parts.append(str(v.value))
+                else:
+                    x = ev(v.value)  # type: ignore[attr-defined]
+                    if isinstance(x, str):
+                        parts.append(x)
+                    elif isinstance(x, Num) and x.rational and x.coef.denominator == 1:
+                        parts.append(str(int(x.coef)))
+                    else:
+                        return Opaque("f-string over a non-literal")
+            return "".join(parts)
         return Opaque(type(e).__name__)
 
+    def _compare(self, e: ast.Compare, vals: List[Any]) -> Any:
+        res = True
+        for op, a, b in zip(e.ops, vals, vals[1:]):
+            if isinstance(a, Opaque) or isinstance(b, Opaque):
+                return Opaque("comparison on opaque")
+            if isinstance(op, (ast.Is, ast.IsNot)):
+                r = a is b or (a is None and b is None)
+                r = r if isinstance(op, ast.Is) else not r
+            elif isinstance(op, (ast.Eq, ast.NotEq)):
+                if isinstance(a, Num) and isinstance(b, Num):
+                    r = a.dec() == b.dec()
+                elif isinstance(a, (str, bool, type(None))) or isinstance(b, (str, bool, type(None))):
+                    r = a == b
+                elif isinstance(a, (UnitV, Dim, Pfx)) and isinstance(b, (UnitV, Dim, Pfx)):
+                    r = a is b
+                else:
+                    return Opaque("equality outside the DSL")
+                r = r if isinstance(op, ast.Eq) else not r
+            elif isinstance(op, (ast.Lt, ast.LtE, ast.Gt, ast.GtE)) and isinstance(a, Num) and isinstance(b, Num):
+                x, y = a.dec(), b.dec()
+                r = {ast.Lt: x < y, ast.LtE: x <= y, ast.Gt: x > y, ast.GtE: x >= y}[type(op)]
+            elif isinstance(op, (ast.In, ast.NotIn)) and isinstance(b, (list, tuple, dict, str)):
+                try:
+                    r = a in b
+                except TypeError:
+                    return Opaque("membership")
+                r = r if isinstance(op, ast.In) else not r
+            else:
+                return Opaque("comparison outside the DSL")
+            res = res and r
+            if not res:
+                return False
+        return res
+
+    def _comprehension(self, short: str, ns: Any, e: Any, source: str) -> Any:
+        import collections
+        out_list: List[Any] = []
+        out_dict: Dict[Any, Any] = {}
+        env = collections.ChainMap({}, ns)
+        ok = True
+
+        def rec(i: int) -> None:
+            nonlocal ok
+            if i == len(e.generators):
+                if isinstance(e, ast.DictComp):
+                    out_dict[self._eval(short, env, e.key, source)] = self._eval(short, env, e.value, source)
+                else:
+                    out_list.append(self._eval(short, env, e.elt, source))
+                return
+            g = e.generators[i]
+            seq = self._iterate(self._eval(short, env, g.iter, source))
+            if seq is None:
+                ok = False
+                return
+            for x in seq:
+                self._assign(short, env, g.target, x, source)
+                keep = True
+                for c in g.ifs:
+                    t = self._truth(self._eval(short, env, c, source))
+                    if t is None:
+                        ok = False
+                        return
+                    if not t:
+                        keep = False
+                        break
+                if keep:
+                    rec(i + 1)
+        self.depth += 1
+        try:
+            rec(0)
+        finally:
+            self.depth -= 1
+        if not ok:
+            return Opaque("comprehension over a non-literal iterable")
+        return out_dict if isinstance(e, ast.DictComp) else out_list
+
     def _getattr(self, base: Any, attr: str) -> Any:
+        if isinstance(base, (list, dict)) and attr in ("items", "keys", "values", "append", "extend", "get"):
+            return ("cmethod", base, attr)
         if isinstance(base, tuple) and base and base[0] == "module":
             m = self.ns.get(base[1])
             if m is not None and attr in m:
@@ -779,6 +1032,32 @@ class Evaluator:
         text = ast.unparse(e)
         self._cur_where = f"{rel(self.path_of(short))}:{e.lineno}"
         self._cur_module = short
+        self.visited_calls.add(id(e))
+        if any(isinstance(a, ast.Starred) for a in e.args) or any(k.arg is None for k in e.keywords):
+            return Opaque("star-arguments")
+        if isinstance(f, Func):
+            return self._call_func(f, args, kw, text)
+        if isinstance(f, tuple) and f and f[0] == "builtin":
+            return self._builtin(f[1], args, kw)
+        if isinstance(f, tuple) and f and f[0] == "cmethod":
+            base, attr = f[1], f[2]
+            if isinstance(base, dict):
+                if attr == "items":
+                    return [(k, v) for k, v in base.items()]
+                if attr == "keys":
+                    return list(base.keys())
+                if attr == "values":
+                    return list(base.values())
+                if attr == "get" and args:
+                    return base.get(args[0], args[1] if len(args) > 1 else None)
+            if isinstance(base, list):
+                if attr == "append" and args:
+                    base.append(args[0])
+                    return None
+                if attr == "extend" and args and isinstance(args[0], (list, tuple)):
+                    base.extend(args[0])
+                    return None
+            return Opaque(f"container method {attr}")
 
         def arg(i: int, name: str, default: Any = None) -> Any:
             if i < len(args):
@@ -885,6 +1164,109 @@ class Evaluator:
                 return obj
             return Opaque(f"method {attr}")
         return Opaque(f"call {text[:40]}")
+
+    def _builtin(self, name: str, args: List[Any], kw: Dict[str, Any]) -> Any:
+        def ints(xs: List[Any]) -> Optional[List[int]]:
+            out = []
+            for x in xs:
+                if isinstance(x, Num) and x.rational and x.coef.denominator == 1:
+                    out.append(int(x.coef))
+                else:
+                    return None
+            return out
+        if name == "range":
+            iv = ints(args)
+            if iv is None or not 1 <= len(iv) <= 3:
+                return Opaque("range of non-literals")
+            return [Num(Fraction(i)) for i in range(*iv)]
+        seqs = [self._iterate(a) for a in args]
+        if name == "zip":
+            if any(s_ is None for s_ in seqs):
+                return Opaque("zip of non-literals")
+            return [tuple(t) for t in zip(*seqs)]  # type: ignore[arg-type]
+        if name == "enumerate" and seqs and seqs[0] is not None:
+            start = 0
+            if len(args) > 1 or "start" in kw:
+                iv = ints([args[1] if len(args) > 1 else kw["start"]])
+                if iv is None:
+                    return Opaque("enumerate start")
+                start = iv[0]
+            return [(Num(Fraction(i)), x) for i, x in enumerate(seqs[0], start)]
+        if name in ("list", "tuple", "reversed") and len(args) <= 1:
+            if not args:
+                return [] if name == "list" else ()
+            if seqs[0] is None:
+                return Opaque(f"{name} of a non-literal")
+            r = list(reversed(seqs[0])) if name == "reversed" else list(seqs[0])
+            return tuple(r) if name == "tuple" else r
+        if name == "dict":
+            if not args:
+                return dict(kw)
+            if isinstance(args[0], dict):
+                return dict(args[0])
+            if seqs[0] is not None:
+                try:
+                    return {k: v for k, v in seqs[0]}
+                except (TypeError, ValueError):
+                    return Opaque("dict of a non-pair sequence")
+        if name == "len" and args and seqs[0] is not None:
+            return Num(Fraction(len(seqs[0])))
+        if name == "abs" and args and isinstance(args[0], Num):
+            return args[0] if args[0].sign() >= 0 else -args[0]
+        if name == "sum" and args and seqs[0] is not None and all(isinstance(x, Num) for x in seqs[0]):
+            tot = Num(Fraction(0))
+            for x in seqs[0]:
+                tot = tot + x
+            return tot
+        return Opaque(f"builtin {name}")
+
+    def _call_func(self, f: Func, args: List[Any], kw: Dict[str, Any], text: str) -> Any:
+        import collections
+        if self.depth > 25:
+            raise AnalysisError("declaration helper recursion too deep")
+        node = f.node
+        a = node.args  # type: ignore[attr-defined]
+        if a.vararg or a.kwarg:
+            return Opaque("helper with *args/**kwargs")
+        pos = a.posonlyargs + a.args
+        local: Dict[str, Any] = {}
+        source = self.sources.get(f.short, "")
+        defaults = dict(zip([x.arg for x in reversed(pos)], reversed(a.defaults)))
+        for x, d in zip(a.kwonlyargs, a.kw_defaults):
+            if d is not None:
+                defaults[x.arg] = d
+        if len(args) > len(pos):
+            raise DeclError(f"TypeError: too many arguments in {text}")
+        for x, v in zip(pos, args):
+            local[x.arg] = v
+        for k, v in kw.items():
+            local[k] = v
+        for x in pos + a.kwonlyargs:
+            if x.arg not in local:
+                if x.arg in defaults:
+                    local[x.arg] = self._eval(f.short, f.globals, defaults[x.arg], source)
+                else:
+                    raise DeclError(f"TypeError: missing argument {x.arg} in {text}")
+        env = collections.ChainMap(local, f.globals)
+        saved = (self._cur_module, self._cur_where)
+        self.depth += 1
+        try:
+            for st in node.body:  # type: ignore[attr-defined]
+                self.exec_stmt(f.short, env, st, source)
+        except _Return as r:
+            return r.value
+        finally:
+            self.depth -= 1
+            self._cur_module, self._cur_where = saved
+        return None
+
+    def unvisited_sites(self) -> List[Tuple[str, int, str]]:
+        out = []
+        for short, sites in self.site_index.items():
+            for c in sites:
+                if id(c) not in self.visited_calls:
+                    out.append((short, c.lineno, ast.unparse(c)[:80]))
+        return out
 
     def _dimension_define(self, name: Any, symbol: Any) -> Dim:
         index = len(self.fundamental)
